@@ -169,22 +169,32 @@ Definition check_p (c : pcase) : list (N * kind) := run_p (p_limit c) (p_fresh c
 (* ---------- CG: n simultaneous ChannelSink.Process calls on a buffered channel with k free slots, nobody draining ----------
    Every call must return within the bound: at most k callers hand their event over (success), every other caller gets the
    timeout error once the timeout has elapsed; the channel then holds exactly the events of the callers that reported success. *)
-Record gobs := { go_arms : list N;        (* per caller: 0 sent, 2 timeout error, 3 anything else; callers that never returned are absent *)
+Record gobs := { go_calls : list (N * Z);  (* per caller, in caller order: (0 sent | 1 context error | 2 timeout error | 3 anything else, time from ITS OWN entry
+                                             to its return in microseconds); callers that never returned are absent *)
                  go_hung : N;             (* callers that had not returned when the watchdog fired *)
                  go_delivered_ok : bool;  (* the channel holds exactly the very events of the callers that reported success (besides the prefill) *)
-                 go_early : bool;         (* some timeout error came back before the timeout had elapsed *)
-                 go_latency : Z }.        (* the slowest returned call, microseconds *)
-Record gcase := { g_free : N; g_n : N; g_timeout : Z; g_obs : gobs }.
+                 go_early : bool }.       (* some timeout error came back before the timeout had elapsed *)
+Record gcase := { g_free : N; g_timeout : Z;
+                  g_ctxs : list (option Z);   (* one per caller: its own context expires this long after ITS entry (None = never) *)
+                  g_slack : Z;                (* how much later than the bound a return is still put down to scheduling *)
+                  g_obs : gobs }.
 
 Definition countN (x : N) (l : list N) : N := N.of_nat (length (filter (N.eqb x) l)).
+(* the shorter of timeout and the caller's context, and the error a caller that cannot hand over must get *)
+Definition g_bound (T : Z) (ctx : option Z) : Z := match ctx with Some d => Z.min d T | None => T end.
+Definition g_err_arm (T : Z) (ctx : option Z) : N := match ctx with Some d => if Z.ltb d T then 1 else 2 | None => 2 end%N.
 Definition check_g (c : gcase) : list kind :=
   let o := g_obs c in
-  (if N.eqb (go_hung o) 0 then [] else [KChanHang]) ++
-  (if N.leb (countN 0 (go_arms o)) (N.min (g_free c) (g_n c)) &&
-      N.eqb (countN 0 (go_arms o) + countN 2 (go_arms o) + go_hung o) (g_n c) then [] else [KChanArm]) ++
+  let per := combine (g_ctxs c) (go_calls o) in
+  (if N.eqb (go_hung o) 0 && N.eqb (lenN (go_calls o)) (lenN (g_ctxs c)) then [] else [KChanHang]) ++
+  (* at most k hand-overs; every other caller gets the error of whichever is shorter for IT *)
+  (if N.leb (countN 0 (map fst (go_calls o))) (N.min (g_free c) (lenN (g_ctxs c))) &&
+      forallb (fun p => N.eqb (fst (snd p)) 0 || N.eqb (fst (snd p)) (g_err_arm (g_timeout c) (fst p))) per then [] else [KChanArm]) ++
   (if go_delivered_ok o then [] else [KChanExactlyOne]) ++
   (if go_early o then [KChanEarly] else []) ++
-  (if Z.leb (go_latency o) (50 * (g_timeout c + 20000)) then [] else [KChanLatency]).
+  (* never blocking longer than the shorter of the two: every caller is back within its bound + slack of ITS OWN entry — the callers
+     wait concurrently, so a caller that needs 2 x, 3 x its bound was queued behind the others *)
+  (if forallb (fun p => Z.leb (snd (snd p)) (g_bound (g_timeout c) (fst p) + g_slack c)) per then [] else [KChanLatency]).
 
 (* ---------- all together ---------- *)
 Inductive scase := CW (c : wcase) | CC (c : ccase) | CF (c : fcase) | CH (c : hcase) | CP (c : pcase) | CG (c : gcase).
